@@ -526,7 +526,7 @@ def run(ctx):
                 if sa[0] == "ok":
                     got = {a: v for a, v in sa[1].items()}
                     for a, v in exp_axes.items():
-                        if a in got and got[a] != v and not (isinstance(v, list) and list(np.ravel(got[a])) == v):
+                        if a in got and got[a] != v:      # an ellipsis axis is reported as the list of its lengths, also when it has one
                             ctx.report({"kind": "wrong_axis_value"}, {**rec, "axis": a, "expected": v, "reported": got[a]})
             if so is not None and so[0] != "ok" and k not in weak:
                 ctx.report({"kind": "rejects_determined_system", "fn": "id", "exc": so[1], "site": so[2]}, {**rec, "output": op[0], "message": so[3]})
